@@ -201,3 +201,15 @@ def dead_probes(tier, cov):
     dead = [k for k in need if cov["probes"].get(k, 0) == 0]
     dead += [k for k in ("missing_file", "non_source", "empty_command") if cov["faults_fired"].get(k, 0) == 0]
     return dead if cov["evaluations"] >= 200 else []
+
+
+def extra_checks(tier, verif_seed, out):
+    """Path model + preprocessor model against gcc -E run from each entry's directory."""
+    from .. import gcccheck
+
+    n = 80 if tier == "quick" else 3000
+    res = gcccheck.run(n, verif_seed, "c13")
+    out(f"[{PID}] model_vs_gcc: {res['tus']} TUs of {res['worlds']} worlds, {res['mismatches']} mismatches")
+    if res["mismatches"]:
+        raise runners.HarnessError(f"path/reference model disagrees with gcc: {res['examples'][:2]}")
+    return {"model_vs_gcc": {k: res[k] for k in ("worlds", "tus", "mismatches", "skipped")}}, []
